@@ -35,8 +35,9 @@ class SimpleSampler:
 
     def __sub__(self, other):
         if isinstance(other, Real):
-            other = ConstantSampler(-other)
-            return SumSampler((self, other))
+            # negate the sampler, not the constant: -other wraps around for
+            # unsigned numpy scalars
+            other = ConstantSampler(other)
         return SumSampler((self, -other))
 
     def __rsub__(self, other):
